@@ -82,7 +82,7 @@ def parse_operations(
                 # Derive operation_id according to the selected naming strategy
                 if naming_strategy == NamingStrategy.PATH:
                     operation_id = NameSanitizer.sanitize_method_name(f"{mu}_{path}".strip("/"))
-                elif "operationId" in node_op:
+                elif node_op.get("operationId"):  # an empty operationId is treated like an absent one
                     if naming_strategy == NamingStrategy.CLEAN:
                         operation_id = NameSanitizer.clean_auto_generated_operation_id(node_op["operationId"], mu, path)
                     else:
